@@ -11,7 +11,8 @@ IRIS = {"i1": "http://a.b/c#d", "i2": "urn:x:y_z@w", "i3": "http://a.b/p_q", "dt
 BNODES = {"b1": "_:b1", "b2": "_:x_2", "b3": "_:n.1.z"}
 SUFFIX = {"none": "", "lang": "@en", "langreg": "@en-GB", "langnum": "@es-419", "dt": "^^<%s>" % IRIS["dt"],
           # datatype IRIs whose scheme is spelled like a prefix the library knows by heart
-          "dtgeo": "^^<geo:wkt>", "dtxsd": "^^<xsd:int>", "dtdt": "^^<dt:sec>", "dtrdf": "^^<rdf:HTML>"}
+          "dtgeo": "^^<geo:wkt>", "dtxsd": "^^<xsd:int>", "dtdt": "^^<dt:sec>", "dtrdf": "^^<rdf:HTML>",
+          "dtat": "^^<http://u@v.w/dt@v2>"}      # '@' inside the datatype IRI
 SEPS = {"sp": " ", "tab": "\t", "sp2": "  "}
 
 
@@ -349,18 +350,19 @@ REGISTRY = {"C06": check_c06}
 # ------------------------------------------------------------------------------------------------ C07
 TOK_TEXT = {"s.pn": "ex:a", "s.abs": "<http://x.org/s>", "s.rel": "<r1>", "s.bn": "_:b1",
             "p.pn": "ex:p", "p.a": "a", "p.abs": "<http://x.org/q>", "p.type": "rdf:type",
-            "o.pn": "ex:b", "o.abs": "<http://x.org/o#f>", "o.rel": "<r2>", "o.bn": "_:b2", "o.int": "57", "o.pint": "+8", "o.nint": "-30",
+            "o.pn": "ex:b", "o.abs": "<http://x.org/o#f>", "o.rel": "<r2>", "o.bn": "_:b2", "o.int": "57", "o.pint": "+8", "o.nint": "-30", "o.dot": "rel:x",
             "o.str": '"x y"', "o.xsd": '"5"^^xsd:int', "o.dti": '"v"^^<http://x.org/dt>', "o.dtp": '"v"^^ex:dt', "o.dtg": '"4"^^geo:deg',
             "o.lang": '"hola"@es', "o.spec": '"a # b ; c , d . e"', "o.esc": '"q\\"u\\\\"', "o.cls": "ex:C",
             "o.https": "<https://s.org/x>", "s.https": "<https://s.org/y#z>", "@re": "@prefix ex: <http://ex2.org/> .",
             "s.bs": "base:s1", "p.bs": "prefixes:p1", "o.bs": "base:o1"}
 SUBJ_TOKS = ["s.pn", "s.abs", "s.rel", "s.bn", "s.https", "s.bs"]
 PRED_TOKS = ["p.pn", "p.a", "p.abs", "p.type", "p.bs"]
-OBJ_TOKS = ["o.pn", "o.abs", "o.rel", "o.bn", "o.int", "o.pint", "o.nint", "o.str", "o.xsd", "o.dti", "o.dtp", "o.dtg", "o.bs", "o.lang", "o.spec", "o.esc", "o.cls", "o.https"]
+OBJ_TOKS = ["o.pn", "o.abs", "o.rel", "o.bn", "o.int", "o.pint", "o.nint", "o.dot", "o.str", "o.xsd", "o.dti", "o.dtp", "o.dtg", "o.bs", "o.lang", "o.spec", "o.esc", "o.cls", "o.https"]
 GAPS = ["sp", "sp2", "tab", "nl", "nlsp", "cmt", "cline"]
 HEADER = ["@prefix ex: <http://ex.org/> .", "@prefix xsd: <http://www.w3.org/2001/XMLSchema#> .",
           "@prefix rdf: <http://www.w3.org/1999/02/22-rdf-syntax-ns#> .", "@prefix geo: <http://www.w3.org/2003/01/geo/wgs84_pos#> .",
-          "@prefix base: <http://bb.org/> .", "@prefix prefixes: <http://pp.org/> .", "@base <http://b.org/d/> ."]
+          "@prefix base: <http://bb.org/> .", "@prefix prefixes: <http://pp.org/> .", "@prefix rel: <http://r.org/v1.> .",
+          "@base <http://b.org/d/> ."]
 COMMENT_TAIL = ' # c " .'
 COMMENT_LINE = "# line ;"
 
@@ -496,7 +498,7 @@ def check_c07(out, tier):
     i = 0
     forms = [("o.pn", "s.pn"), ("o.str", "s.rel"), ("o.dtp", "s.abs"), ("o.lang", "s.bn"), ("o.spec", "s.pn"), ("o.int", "s.rel"),
              ("o.esc", "s.abs"), ("o.xsd", "s.pn"), ("o.dti", "s.bn"), ("o.bn", "s.rel"), ("o.abs", "s.pn"), ("o.rel", "s.abs"),
-             ("o.https", "s.https"), ("o.dtg", "s.pn"), ("o.bs", "s.bs"), ("o.pint", "s.pn"), ("o.nint", "s.abs")]
+             ("o.https", "s.https"), ("o.dtg", "s.pn"), ("o.bs", "s.bs"), ("o.pint", "s.pn"), ("o.nint", "s.abs"), ("o.dot", "s.rel")]
     per = 160 if tier == "quick" else 4096
     for of, sf in forms:
         toks = skeleton(of, sf)
